@@ -198,6 +198,14 @@ def ev_formats(case) -> R:
     pl = summary.get("Files with license information", "")
     if pc != f"{want['files_with_copyright_info']} / {n}" or pl != f"{want['files_with_licensing_info']} / {n}":
         r.violation("plain-summary-counts", f"--plain summary says copyright {pc!r} licence {pl!r}; JSON lists give {want}")
+    def lst(key):
+        v = summary.get(key, "0")
+        return set() if v == "0" else set(v.split(", "))
+
+    for key, want_set in (("Bad licenses", {k for k, _f in j["bad"]}), ("Deprecated licenses", j["deprecated"]), ("Licenses without file extension", j["noext"]),
+                          ("Missing licenses", {k for k, _f in j["missing"]}), ("Unused licenses", j["unused"]), ("Used licenses", set(data["summary"]["used_licenses"]))):
+        if lst(key) != want_set:
+            r.violation(f"plain-summary-list|{key}", f"base {proj['name']} [{label}]: --plain summary '{key}' lists {sorted(lst(key))}, JSON has {sorted(want_set)}")
     if summary.get("Read errors") != str(len(j["read"])):
         r.violation("plain-summary-read-errors", f"--plain says Read errors: {summary.get('Read errors')!r}, JSON has {len(j['read'])}")
     r.outcome = "|".join(k for k, v in j.items() if v) or "compliant"
